@@ -456,7 +456,7 @@ def execute_and_judge(run: Run, scenarios: list[dict], own_prefixes: tuple[str, 
 DLV_WHAT = {"ans": "ans", "late": "ans", "dup": "ans", "garbage": "garb", "short": "garb", "badcrc": "garb", "exc": "exc",
             "head": "head", "tail": "tail", "tail+1": "tailx", "tail-1": "tailx", "tailx": "tailc", "foreign": "ans",
             "foreigntail": "tail"}
-CONF_KEEP = {"CALL", "RET", "SEND", "DLV", "OPEN", "CLOSE", "PEERCLOSE", "ERR", "CONN", "CONNFAIL", "UNHANDLED", "END"}
+CONF_KEEP = {"CALL", "RET", "SEND", "DLV", "OPEN", "CLOSE", "PEERCLOSE", "ERR", "CONN", "CONNFAIL", "UNHANDLED", "UCANCEL", "END"}
 
 
 def conformance(run: Run, scenarios: list[dict], traces: list[dict], per_group: int, rnd: random.Random) -> None:
@@ -465,7 +465,7 @@ def conformance(run: Run, scenarios: list[dict], traces: list[dict], per_group: 
     for i, sc in enumerate(scenarios):
         if sc.get("family") == "script" and "abstract" in sc and sc["retries"] <= 3 and sc["T"] == T:
             groups.setdefault((sc["kind"], sc["ka"], f"r{sc['retries']}"), []).append(i)
-        elif sc.get("family") in ("concurrent", "tlcsim") and "abstract" in sc:
+        elif sc.get("family") in ("concurrent", "tlcsim", "cancel") and "abstract" in sc:
             groups.setdefault((sc["kind"], sc["ka"], sc["abstract"]["shape"]), []).append(i)
     total = drift = 0
     import concurrent.futures as cf
@@ -498,7 +498,8 @@ def conformance(run: Run, scenarios: list[dict], traces: list[dict], per_group: 
                 evs.append(d)
             ncall = max(len(c) for c in sc["epochs"])
             scripts.append({"rf": sc["abstract"]["rf"], "conn": sc["abstract"]["conn"], "gap": sc["abstract"]["gap"],
-                            "off": sc["abstract"].get("off", [0] * ncall), "gaps": sc["abstract"].get("gaps", []), "ev": evs})
+                            "off": sc["abstract"].get("off", [0] * ncall), "gaps": sc["abstract"].get("gaps", []),
+                            "uc": sc["abstract"].get("uc", []), "ev": evs})
         path = os.path.join(run.workdir, f"conform_{kind}_{'ka' if ka else 'nka'}_{r.replace(':', '_')}.json")
         tlc.write_json(path, scripts)
         cfgname = f"ConformG_{kind}_{'ka' if ka else 'nka'}_{r[2:]}" if r.startswith("G:") else f"Conform_{kind}_{'ka' if ka else 'nka'}_{r}"
@@ -549,7 +550,7 @@ ASSUMPTIONS = ["CPython asyncio semantics are taken from the real asyncio (only 
 
 def mc_cfgs(prop: str, tier: str) -> list[str]:
     q = {
-        "C04": ["udp_ka_r1", "udp_nka_r1", "tcp_ka_r1", "tcp_nka_r1"],
+        "C04": ["udp_ka_r1", "udp_nka_r1", "tcp_ka_r1", "tcp_nka_r1", "udp_ka_uc"],
         "C05": ["udp_ka_h3", "udp_nka_h3", "tcp_ka_h3", "tcp_nka_h3"],
         "C06": ["udp_ka_c2", "udp_nka_c2", "tcp_ka_c2", "tcp_nka_c2"],
         "C07": ["udp_ka_r1", "tcp_ka_r1"],
@@ -559,13 +560,14 @@ def mc_cfgs(prop: str, tier: str) -> list[str]:
     }[prop]
     if tier == "thorough":
         extra = {
-            "C04": ["udp_ka_r0", "udp_nka_r0", "tcp_ka_r0", "tcp_nka_r0", "udp_ka_r2", "udp_nka_r2", "tcp_ka_r2", "tcp_nka_r2"],
+            "C04": ["udp_ka_r0", "udp_nka_r0", "tcp_ka_r0", "tcp_nka_r0", "udp_ka_r2", "udp_nka_r2", "tcp_ka_r2", "tcp_nka_r2",
+                    "udp_nka_uc", "tcp_ka_uc", "tcp_nka_uc"],
             "C05": ["udp_ka_r1", "udp_nka_r1", "tcp_ka_r1", "tcp_nka_r1"],
             "C06": ["udp_ka_c3", "udp_nka_c3", "tcp_ka_c3", "tcp_nka_c3"],
             "C07": ["udp_nka_r1", "tcp_nka_r1", "udp_ka_r2"],
             "C08": ["udp_ka_r1", "tcp_ka_r1", "udp_nka_r2"],
             "C09": ["udp_ka_r1", "udp_nka_r1", "tcp_ka_r1", "tcp_nka_r1"],
-            "C10": ["udp_ka_r1", "udp_nka_r1", "tcp_ka_r1", "tcp_nka_r1", "udp_ka_c2", "tcp_nka_c2"],
+            "C10": ["udp_ka_r1", "udp_nka_r1", "tcp_ka_r1", "tcp_nka_r1", "udp_ka_c2", "tcp_nka_c2", "udp_nka_uc", "tcp_nka_uc"],
         }[prop]
         q = q + extra
     return ["MC_Proto_" + c for c in q]
@@ -584,6 +586,7 @@ def check(prop: str, tier: str, seed: int) -> int:
         scen += fam_script([1], [2], conn_variants=False)
         scen += fam_random(300 if quick else 6000, rnd)
         scen += fam_tlcsim(run, "deep1", 10 if quick else 400, seed)
+        scen += fam_cancel(tier, rnd, 200 if quick else None)
         if not quick:
             scen += fam_script([2], [0], conn_variants=False)
             scen += fam_script([1], [0], conn_variants=False, scale=2)
@@ -628,6 +631,7 @@ def check(prop: str, tier: str, seed: int) -> int:
         scen += fam_random(200 if quick else 4000, rnd)
         scen += fam_tlcsim(run, "conc", 5 if quick else 200, seed)
         scen += fam_tlcsim(run, "deep1", 5 if quick else 200, seed)
+        scen += fam_cancel(tier, rnd, 100 if quick else None)
         own = ("C10.",)
     else:
         raise ValueError(prop)
@@ -646,6 +650,36 @@ def check(prop: str, tier: str, seed: int) -> int:
         for mm in st["mismatches"][:3]:
             run.notes.append("HARNESS-MISMATCH: virtual loop and real loopback sockets differ: " + json.dumps(mm)[:300])
     return run.finish()
+
+
+CANCEL_ATS = (2, 5, 6)
+
+
+def fam_cancel(tier: str, rnd: random.Random, limit: int | None = None) -> list[dict]:
+    """Beyond the listed properties: the user of the library cancels the task of a request in flight (one caller, two
+    requests, retries = 1; first request under every script of the cancellation alphabet x every cancellation instant,
+    second request silent or answered).  Same constants as the instances MC_Proto_*_uc / Conform_*_uc."""
+    out = []
+    al = alphabet()["cancel"]
+    for kind in ("udp", "tcp"):
+        fr = FRAMING[kind]
+        for ka in (True, False):
+            scripts = list(itertools.product(al, repeat=2))
+            for script in scripts:
+                variants = [concrete(mf, fr) for mf in script]
+                conc = [v[0] for v in variants]
+                for ca in CANCEL_ATS:
+                    for second in ([], [{"k": "ans", "d": 1}]):
+                        sc = base(kind, ka, 1)
+                        sc["epochs"] = [[{"start": 0, "prog": [req(100, cancel_after=ca), {"do": "sleep", "d": 0}, req(101)]}]]
+                        sc["rfaults"] = [list(conc), list(second)]
+                        sc["family"] = "cancel"
+                        sc["abstract"] = {"rf": [list(script), [{"k": "ans", "d": 1, "d2": 0, "x": 0}] if second else []],
+                                          "conn": [], "gap": 0, "uc": [ca, 0], "shape": "uc"}
+                        out.append(sc)
+    if limit is not None and len(out) > limit:
+        out = rnd.sample(out, limit)
+    return out
 
 
 def fam_payload(tier: str, rnd: random.Random) -> list[dict]:
